@@ -68,6 +68,9 @@ func c08Case(seed uint64, caseNo int) (*tree.Tree, *tree.Tree) {
 		t.Entries = append(t.Entries, tree.Entry{Path: d, Type: tree.Dir, Perm: 0755, Mtime: 1e18})
 	}
 	dirs := []string{"", "a", "a/b", "a-b", "z"}
+	// the first entry of the stream (id 0, the value proto3 leaves off the
+	// wire) is a regular file that gets requested among many others
+	t.Entries = append(t.Entries, tree.Entry{Path: "!first", Type: tree.File, Perm: 0644, Mtime: 1e18, Data: R.Bytes(40000)})
 	for i := 0; i < n; i++ {
 		d := core.Pick(R, dirs)
 		p := fmt.Sprintf("f%04d", i)
